@@ -97,6 +97,12 @@ pub fn judge(case: &[u8], acc: &mut Acc) {
 }
 
 fn judge_v1(code: u8, input: &[u8], acc: &mut Acc) {
+    // a replacement token that pushes the line past 107 bytes corrupts two elements (the field and the limit)
+    let line_len = input.iter().position(|&b| b == b'\r').map(|c| c + 2).unwrap_or(input.len());
+    if code != E_TOO_LONG && line_len > 107 {
+        acc.class("two elements corrupted (field and 107-byte limit)", "skipped");
+        return;
+    }
     let want = expected_v1(code);
     let r = v1_bytes(input);
     acc.eval(1);
@@ -204,15 +210,19 @@ pub fn v1_cases(thorough: bool) -> Vec<Vec<u8>> {
     let trailers: Vec<Vec<u8>> = if thorough { vec![s(""), s("X"), s("PROXY UNKNOWN\r\n"), vec![0xff]] } else { vec![s(""), s("X")] };
     struct Fam {
         proto: &'static str,
-        srcs: Vec<&'static str>,
-        dsts: Vec<&'static str>,
+        srcs: Vec<String>,
+        dsts: Vec<String>,
         v6: bool,
     }
+    // valid alternatives for the untouched fields: a few in the quick tier, every valid token of the menus in the thorough tier
+    let v4_all: Vec<String> = addr.iter().filter(|t| ip::parse_ipv4(t).is_some()).map(|t| String::from_utf8(t.clone()).unwrap()).collect();
+    let v6_all: Vec<String> = addr.iter().filter(|t| ip::parse_ipv6(t).is_some()).map(|t| String::from_utf8(t.clone()).unwrap()).collect();
+    let pick = |all: &Vec<String>, few: &[&str]| -> Vec<String> { if thorough { all.clone() } else { few.iter().map(|x| x.to_string()).collect() } };
     let fams = [
-        Fam { proto: "TCP4", srcs: vec!["1.2.3.4", "0.0.0.0", "255.255.255.255"], dsts: vec!["5.6.7.8", "255.255.255.255"], v6: false },
-        Fam { proto: "TCP6", srcs: vec!["1:2:3:4:5:6:7:8", "::", "::ffff:1.2.3.4", "ffff:ffff:ffff:ffff:ffff:ffff:ffff:ffff"], dsts: vec!["::1", "FFFF::", "1:2:3:4:5:6:7::"], v6: true },
+        Fam { proto: "TCP4", srcs: pick(&v4_all, &["1.2.3.4", "0.0.0.0", "255.255.255.255"]), dsts: pick(&v4_all, &["5.6.7.8", "255.255.255.255"]), v6: false },
+        Fam { proto: "TCP6", srcs: pick(&v6_all, &["1:2:3:4:5:6:7:8", "::", "::ffff:1.2.3.4", "ffff:ffff:ffff:ffff:ffff:ffff:ffff:ffff"]), dsts: pick(&v6_all, &["::1", "FFFF::", "1:2:3:4:5:6:7::"]), v6: true },
     ];
-    let vports = ["80", "0", "65535"];
+    let vports: Vec<&str> = if thorough { vec!["80", "0", "65535", "1", "9", "10", "443", "65530"] } else { vec!["80", "0", "65535"] };
     let push = |cases: &mut Vec<Vec<u8>>, code: u8, line: Vec<u8>| {
         let mut c = vec![code];
         c.extend_from_slice(&line);
@@ -222,8 +232,8 @@ pub fn v1_cases(thorough: bool) -> Vec<Vec<u8>> {
         let valid_addr = |t: &[u8]| if f.v6 { ip::parse_ipv6(t).is_some() } else { ip::parse_ipv4(t).is_some() };
         for src in &f.srcs {
             for dst in &f.dsts {
-                for sp in vports {
-                    for dp in vports {
+                for sp in vports.iter().copied() {
+                    for dp in vports.iter().copied() {
                         for tr in &trailers {
                             let line = |kw: &[u8], proto: &[u8], a: &[u8], b: &[u8], p: &[u8], q: &[u8], term: &[u8]| -> Vec<u8> { [kw, b" ", proto, b" ", a, b" ", b, b" ", p, b" ", q, term, tr.as_slice()].concat() };
                             let (kw, pr, a, b, p, q) = (b"PROXY".as_slice(), f.proto.as_bytes(), src.as_bytes(), dst.as_bytes(), sp.as_bytes(), dp.as_bytes());
@@ -286,6 +296,18 @@ pub fn v1_cases(thorough: bool) -> Vec<Vec<u8>> {
             l.extend_from_slice(b"\r\n");
             push(&mut cases, E_TOO_LONG, l.clone());
             l.extend_from_slice(b"X");
+            push(&mut cases, E_TOO_LONG, l);
+        }
+        // over-long in bytes but not in characters: multi-byte text
+        for scalar in ["\u{e9}", "\u{20ac}", "\u{1f600}"] {
+            let mut l = s("PROXY UNKNOWN ");
+            while l.len() + scalar.len() + 2 <= total {
+                l.extend_from_slice(scalar.as_bytes());
+            }
+            l.resize(total - 2, b'x');
+            l.extend_from_slice(b"\r\n");
+            push(&mut cases, E_TOO_LONG, l.clone());
+            l.extend_from_slice(b"GET /");
             push(&mut cases, E_TOO_LONG, l);
         }
     }
